@@ -11,7 +11,9 @@ CLASSES = ['Periodogram', 'pcorrelogram', 'pburg', 'pyule', 'pcovar', 'pmodcovar
            'pminvar', 'pmusic', 'pev', 'MultiTapering']
 AR_CLASSES = ['pburg', 'pyule', 'pcovar', 'pmodcovar', 'parma', 'pma']
 WINDOWS_SAFE = ['hann', 'hamming', 'rectangular', 'blackman', 'bartlett', 'kaiser', 'tukey', 'parzen',
-                'nuttall', 'gaussian', 'flattop', 'cosine', 'bohman']
+                'nuttall', 'gaussian', 'flattop', 'cosine', 'bohman', 'taylor', 'chebwin', 'lanczos', 'riesz',
+                'riemann', 'poisson', 'cauchy', 'bartlett_hann', 'blackman_harris', 'blackman_nuttall',
+                'poisson_hanning']
 # relative tolerance for relations between two runs of the same estimator (DESIGN section 4)
 REL_TOL = {'parma': 1e-6, 'pma': 1e-6}
 
@@ -151,3 +153,34 @@ def tol_complex_tone(cls, params, N, NFFT):
     if cls == 'MultiTapering':
         return int(np.ceil(params['NW'] * NFFT / N))
     return None
+
+
+def build_reused(cls, params, x, NFFT=None, fs=1.0, scale=False, salt=0):
+    """The same configuration reached through a *history*: an object of the class is first built on other
+    data (the other real/complex kind when salt is odd, the same samples scaled otherwise), another sampling
+    rate and - for the Fourier classes - another window; its PSD and frequency axis are read; then the target
+    data, sampling, window, scale_by_freq and NFFT are assigned.  Used as an extra workload by the trace
+    monitors: the estimate must not depend on how the object got to its attribute values (C07 is the property
+    that says so; here it widens the executions the other oracles observe)."""
+    x = np.asarray(x)
+    N = len(x)
+    r = np.random.default_rng(1000 + salt)
+    want_complex = np.iscomplexobj(x) != bool(salt % 2)       # odd salt: the other kind of data first
+    other = r.standard_normal(N) + 0.3 * np.cos(0.9 * np.arange(N))
+    if want_complex:
+        other = other + 1j * r.standard_normal(N)
+    p0 = dict(params)
+    if 'window' in p0:
+        p0['window'] = 'bartlett' if params['window'] != 'bartlett' else 'hann'
+    nf = NFFT if isinstance(NFFT, int) else N
+    obj = build(cls, p0, other, NFFT=nf, fs=fs * 2.5 + 1.0, scale=not scale)
+    _ = obj.psd
+    _ = obj.frequencies()
+    obj.data = np.array(x, copy=True)
+    obj.sampling = fs
+    if 'window' in params:
+        obj.window = params['window']
+    obj.scale_by_freq = scale
+    if NFFT == 'nextpow2':
+        obj.NFFT = 'nextpow2'
+    return obj
